@@ -52,7 +52,8 @@ def cases():
         return _rename_callee(d, lambda p: p.startswith(("ipp::value::", "ipp::reader::")) and "::tests::" not in p, "std::string::String::from_utf8_lossy", "std::string::String::from_utf8")
 
     def map_err(d):
-        return _rename_callee(d, lambda p: p == "ipp::reader::IppReader::<R>::read_string", "std::result::Result::<T, E>::map", "std::result::Result::<T, E>::map_err")
+        return _rename_callee(d, lambda p: p.startswith(("ipp::reader::", "ipp::parser::")) and "::tests::" not in p, "std::result::Result::<T, E>::map", "std::result::Result::<T, E>::map_err") or \
+            _rename_callee(d, lambda p: p.startswith("ipp::reader::IppReader") and "::tests::" not in p, "std::io::Read::read_exact", "std::result::Result::<T, E>::map_err")
 
     def reorder(d):
         n = 0
